@@ -9,16 +9,23 @@ def _leaf_subclass():
         _SUB["c"] = Component
     return _SUB["c"]
 
-def build(r, leaf_str=False, via="ctor", style=0):
+def build(r, leaf_str=False, via="ctor", style=0, memo=None, _root=True):
     """style: 0 plain; 1 leaves are instances of a puan.variable sub class; 2 AtLeast/AtMost get their arguments as a one-shot
-    generator; 3 as a map object"""
+    generator; 3 as a map object. memo: a dictionary shared by several build() calls -- equal sub-recipes then are ONE Python
+    object used in all of the built models (a user who keeps a sub-proposition in a variable and uses it twice)"""
     import puan, puan.logic.plog as pg
+    if memo is not None and not _root:
+        import json as _json
+        key = _json.dumps(r, sort_keys=True)
+        if key not in memo:
+            memo[key] = build(r, leaf_str, via, style, memo, True)
+        return memo[key]
     if r["c"] == "leaf":
         if leaf_str and (r["lo"], r["hi"]) == (0, 1) and style != 1:
             return r["id"]
         cls = _leaf_subclass() if style == 1 else puan.variable
         return cls(r["id"], (r["lo"], r["hi"]))
-    args = [build(x, leaf_str, via, style) for x in r["a"]]
+    args = [build(x, leaf_str, via, style, memo, False) for x in r["a"]]
     ident = r["id"] or None
     if ident is not None and r.get("f", -1) != -1 and via != "json":
         import puan as _p
